@@ -432,6 +432,11 @@ class AtomicSaver:
                 os.chmod(self.part_path, file_perms)
             except OSError:
                 self.part_file.close()
+                if self.rm_part_on_exc:
+                    try:
+                        os.unlink(self.part_path)
+                    except Exception:
+                        pass  # avoid masking original error
                 raise
         return
 
